@@ -2,125 +2,268 @@
 `list_objects`, `delete_objects`) — model `ObjCmd.lean`, theorems at the end of Properties/C13.lean.
 
 Emitted: the floor of the stream chunk size under a rate limit (used by the model), and Boolean shape flags for the
-structural facts the model was written from (the bridge theorem `objcmd_model_assumptions_hold` discharges them by
-`decide`).  The recognisers are AST-structural and tolerant of renamed locals / reordered statements; whole functions
-are only fingerprinted.
+structural facts the model was written from (the bridge theorem `objcmd_model_assumptions_hold` discharges them by `decide`).
+
+Recognition is SEMANTIC (`tools/symflow.py`): each command is executed symbolically — helper methods (`_exists`, `_delete`,
+`_maybe_run_in_executor`, `_aiter`, extracted private helpers), nested functions, lambdas and callbacks handed to `map` / executors are
+followed — and a flag is a query over the resulting events: WHAT reaches the backend (`self.backend.<op>` invoked directly or handed
+to an executor) with WHICH resolved arguments under WHICH normalised guard.  Renaming, extraction / inlining of helpers, swapped
+branches, early exits, De Morgan, hoisted values, comprehensions ↔ loops and logging leave a flag unchanged; a flag is true only
+if the structure is positively found.
 """
 import ast
 
+import symflow as sf
+import symfacts
+from symflow import SELF, NONE, is_const, mentions, method_call, global_call, subterms
+from symfacts import backend_op, invocations_of, arg_of
 
-def _calls(node, unparse, suffix):
-    """all Call nodes below `node` whose callee text ends with `suffix`"""
-    return [c for c in ast.walk(node) if isinstance(c, ast.Call) and unparse(c.func).endswith(suffix)]
+
+def own(e):
+    return not any(c[0] in ('inline',) for c in e.ctx)
+
+
+def disjunctions(guard):
+    return [atom[1] for atom, pol in guard if pol and isinstance(atom, tuple) and atom and atom[0] == 'or' and isinstance(atom[1], frozenset)]
+
+
+# ------------------------------------------------------------------------------------------------ upload_objects
+def object_name_ok(name):
+    """name ≡ P.relative_to(commonpath([P, <cwd>])).as_posix()"""
+    m = method_call(name, ('as_posix',))
+    if m is None or m[2]:
+        return False
+    r = method_call(m[0], ('relative_to',))
+    if r is None or len(r[2]) != 1:
+        return False
+    p = r[0]
+    g = global_call(r[2][0], ('os.path.commonpath', 'posixpath.commonpath'))
+    if g is None or len(g[1]) != 1 or g[1][0][0] not in ('list', 'tuple') or len(g[1][0][1]) != 2:
+        return False
+    elts = list(g[1][0][1])
+    if p not in elts:
+        return False
+    elts.remove(p)
+    other = sf.strip_wrappers(elts[0])
+    return global_call(other, ('pathlib.Path.cwd', 'os.getcwd')) is not None
+
+
+def upload_facts(interp):
+    """`upload_objects`: every invocation of `backend.upload_stream`
+        * passes as object name `P.relative_to(os.path.commonpath([P, Path.cwd()])).as_posix()`           (name)
+        * is guarded by `¬skip_existing ∨ ¬<result of backend.exists(that same name)>` and by nothing else that mentions
+          skip_existing or that existence check                                                           (skip)
+        * passes as chunk size `DEFAULT_STREAM_CHUNK_SIZE` if rate_limit is None else `max(rate_limit // …, FLOOR)`   (floor, default)"""
+    out = {'name': False, 'skip': False, 'chunk': None}
+    events, _ = interp.run('upload_objects')
+    ups = invocations_of(events or [], 'upload_stream')
+    if not ups:
+        return out
+    names = {arg_of(a, k, 0, 'name') for _, a, k in ups}
+    out['name'] = len(names) == 1 and None not in names and object_name_ok(next(iter(names)))
+    name = next(iter(names)) if len(names) == 1 else None
+    skip_arg = ('arg', 'skip_existing')
+    is_exists = backend_op('exists')
+
+    def existence_check(t):
+        """t is (derived from) the result of backend.exists(<name>) and of nothing else that reaches the backend"""
+        invs = sf.invocations(t, is_exists)
+        return bool(invs) and all(a and a[0] == name for a, _, _ in invs)
+    ok = name is not None
+    for e, _, _ in ups:
+        found = False
+        for d in disjunctions(e.guard):
+            if len(d) == 2 and (skip_arg, False) in d:
+                (other,) = [x for x in d if x != (skip_arg, False)]
+                if other[1] is False and existence_check(other[0]):
+                    found = True
+        stray = [it for it in e.guard if not (isinstance(it[0], tuple) and it[0] and it[0][0] == 'or' and isinstance(it[0][1], frozenset))
+                 and (mentions(it[0], skip_arg) or sf.invocations(it[0], is_exists))]
+        ok = ok and found and not stray
+    out['skip'] = ok
+    out['chunk'] = chunk_size_shape({arg_of(a, k, 3, 'chunk_size') for _, a, k in ups})
+    return out
+
+
+def chunk_size_shape(values):
+    """the chunk size handed to the backend ≡ (DEFAULT if rate_limit is None else max(rate_limit // …, FLOOR)) → (FLOOR, default is
+    DEFAULT_STREAM_CHUNK_SIZE) or None"""
+    if len(values) != 1:
+        return None
+    v = next(iter(values))
+    if v is None or v[0] != 'phi' or v[1] != ('isnone', ('arg', 'rate_limit')):
+        return None
+    default, limited = v[2], v[3]
+    g = global_call(limited, ('max',))
+    if g is None or limited[1] != ('global', 'max') or len(g[1]) != 2 or g[2]:
+        return None
+    a, b = g[1]
+    if is_const(a, int):
+        a, b = b, a
+    if not (is_const(b, int) and b[1] >= 0 and a[0] == 'binop' and a[1] == 'FloorDiv' and a[2] == ('arg', 'rate_limit')):
+        return None
+    is_default = default[0] == 'global' and default[1].split('.')[-1] == 'DEFAULT_STREAM_CHUNK_SIZE'
+    return b[1], is_default
+
+
+# ------------------------------------------------------------------------------------------------ download_objects
+def download_facts(interp):
+    """`download_objects`: the stream handed to every `backend.download_stream` invocation comes from ONE `open` of the output path
+        * whose mode ≡ 'xb' if skip_existing else 'wb'                                                      (mode)
+        * which sits in a try body with a handler for FileExistsError that neither raises nor lets the download run:
+          the download is in the try's else / later in its body, or the handler leaves                       (catch)
+       and the chunk size has the same shape as for uploads                                                (chunk)"""
+    out = {'mode': False, 'catch': False, 'chunk': None, 'events': None}
+    events, _ = interp.run('download_objects')
+    out['events'] = events
+    downs = invocations_of(events or [], 'download_stream')
+    if not downs:
+        return out
+    out['chunk'] = chunk_size_shape({arg_of(a, k, 2, 'chunk_size') for _, a, k in downs})
+    opens = []
+    for e in events:
+        if e.kind != 'call':
+            continue
+        m = method_call(e.value, ('open',))
+        g = global_call(e.value, ('open', 'io.open')) if e.callee in (('global', 'open'), ('global', 'io.open')) else None
+        mode = None
+        if m is not None:
+            mode = arg_of(m[2], m[3], 0, 'mode')
+        elif g is not None and g[0] in ('open', 'io.open'):
+            mode = arg_of(g[1], g[2], 1, 'mode')
+        else:
+            continue
+        if all(mentions(arg_of(a, k, 1, 'stream') or NONE, e.value) for _, a, k in downs):
+            opens.append((e, mode))
+    if len(opens) != 1:
+        return out
+    eo, mode = opens[0]
+    out['mode'] = mode == ('phi', ('arg', 'skip_existing'), ('const', 'xb'), ('const', 'wb'))
+    tries = [c[1] for c in eo.ctx if c[0] == 'try-body']
+    for tid in reversed(tries):
+        for h in interp.trys[tid]['handlers']:
+            types = h['type'][1] if h['type'][0] == 'tuple' else (h['type'],)
+            if any(t[0] == 'global' and t[1].split('.')[-1] == 'FileExistsError' for t in types):
+                lo, hi = h['events']
+                raises = any(ev.kind == 'raise' for ev in events[lo:hi])
+                sheltered = all(d.inside('try-else', tid) or (d.inside('try-body', tid) and d.seq > eo.seq) or h['term'] in ('func', 'loop')
+                                for d, _, _ in downs)
+                downloads_in_handler = any(lo <= d.seq < hi for d, _, _ in downs)
+                out['catch'] = not raises and sheltered and not downloads_in_handler
+                return out
+    return out
+
+
+# ------------------------------------------------------------------------------------------------ the selection filter
+def filter_ok(interp, fn):
+    """every place where `fn` keeps / prints / yields a listed name P — P an element of `backend.list_files(object_prefix)` — is guarded by
+       `<compiled regex> is None  ∨  <compiled regex>.search(P) matched`, the regex being derived from the object_regex parameter"""
+    events, _ = interp.run(fn)
+    is_list = backend_op('list_files')
+    keeps = []
+    for e in events or []:
+        p = None
+        if e.kind == 'call' and own(e) and (method_call(e.value, ('append', 'add')) is not None or e.callee == ('global', 'print')) and len(e.args) == 1:
+            p = e.args[0]
+        elif e.kind in ('yield', 'collect') and own(e):
+            p = e.value
+        if p is None or p[0] != 'elem':
+            continue
+        invs = sf.invocations(p[1], is_list)
+        if not invs:
+            continue
+        if not all(a and a[0] == ('arg', 'object_prefix') for a, _, _ in invs):
+            return False
+        keeps.append((e, p))
+    if not keeps:
+        return False
+    for e, p in keeps:
+        good = False
+        for d in disjunctions(e.guard):
+            if len(d) != 2:
+                continue
+            res = [x[0][1] for x in d if x[1] is True and x[0][0] == 'isnone']
+            for rx in res:
+                (other,) = [x for x in d if x != (('isnone', rx), True)]
+                searched = ('call', ('attr', rx, 'search'), (p,), ())
+                if other in ((('isnone', searched), False), (searched, True)) and mentions(rx, ('arg', 'object_regex')):
+                    good = True
+        if not good:
+            return False
+    return True
+
+
+# ------------------------------------------------------------------------------------------------ delete_objects
+def delete_facts(interp):
+    """`delete_objects`: for the location L of each object, `backend.delete(L)` is invoked and — LATER, under the guard
+       `<cache directory attribute> is not None` (by a branch, not merely an assert) — a file below that cache directory at L is
+       unlinked (evicts); the unlink tolerates a missing file (missing_ok)"""
+    out = {'evicts': False, 'missing_ok': False}
+    events, _ = interp.run('delete_objects')
+    dels = invocations_of(events or [], 'delete')
+    if not dels:
+        return out
+    locs = {arg_of(a, k, 0, 'name') for _, a, k in dels}
+    if len(locs) != 1 or None in locs:
+        return out
+    loc = next(iter(locs))
+    first_delete = min(e.seq for e, _, _ in dels)
+    evictions = []
+    for e in events:
+        if e.kind != 'call':
+            continue
+        u = symfacts.unlink_of(e, interp)
+        if u is None or not mentions(u[0], loc):
+            continue
+        dirs = [t for t in subterms(u[0]) if t[0] == 'attr' and t[1] == SELF and (('isnone', t), False) in e.guard]
+        if dirs and e.seq > first_delete:
+            evictions.append((e, u[1]))
+    out['evicts'] = bool(evictions)
+    out['missing_ok'] = bool(evictions) and all(ok is True for _, ok in evictions)
+    return out
 
 
 def section(ctx):
-    emit, notes, unparse = ctx.emit, ctx.notes, ctx.unparse
-    tree = ast.parse((ctx.REPO / 'replicat' / 'repository.py').read_text())
-    fns = {}
+    emit, notes = ctx.emit, ctx.notes
+    src = (ctx.REPO / 'replicat' / 'repository.py').read_text()
+    tree = ast.parse(src)
     for m in ('upload_objects', 'download_objects', 'list_objects', 'delete_objects', '_delete_cached', '_flatten_resolve_paths'):
-        fns[m] = ctx.find_func(tree, 'Repository', m)
-        ctx.fp('repository.' + m, fns[m])
+        ctx.fp('repository.' + m, ctx.find_func(tree, 'Repository', m))
 
     def flag(name, value, why):
         if not value:
             notes['objcmd:' + name] = why
         emit(f'def {name} : Bool := {"true" if value else "false"}')
 
-    up, down, lst, dele = fns['upload_objects'], fns['download_objects'], fns['list_objects'], fns['delete_objects']
+    mod = sf.Module(src)
 
-    # ---- upload_objects: object name = path relative to the common path with the working directory, POSIX form
-    name_ok = False
-    if up is not None:
-        cwd_vars = {n.targets[0].id for n in ast.walk(up) if isinstance(n, ast.Assign) and len(n.targets) == 1
-                    and isinstance(n.targets[0], ast.Name) and unparse(n.value) in ('Path.cwd()', 'pathlib.Path.cwd()')}
-        for c in _calls(up, unparse, '.as_posix'):
-            inner = c.func.value
-            if isinstance(inner, ast.Call) and unparse(inner.func).endswith('.relative_to') and len(inner.args) == 1:
-                a = inner.args[0]
-                if isinstance(a, ast.Call) and unparse(a.func).endswith('commonpath') and len(a.args) == 1 and isinstance(a.args[0], (ast.List, ast.Tuple)):
-                    elts = {unparse(e) for e in a.args[0].elts}
-                    if len(elts) == 2 and unparse(inner.func.value) in elts and (elts - {unparse(inner.func.value)}) <= cwd_vars:
-                        name_ok = True
-    flag('objcmdNameIsRelativeToCommonPath', name_ok, 'upload_objects: name is not path.relative_to(commonpath([path, cwd])).as_posix()')
+    def guarded(what, fn, default):
+        try:
+            return fn(sf.Interp(mod, 'Repository'))
+        except Exception as e:  # noqa: BLE001
+            notes['objcmd:' + what] = f'query failed: {e!r}'
+            return default
+    has = 'Repository' in mod.classes
+    up = guarded('upload_objects', upload_facts, {}) if has else {}
+    down = guarded('download_objects', download_facts, {}) if has else {}
+    dele = guarded('delete_objects', delete_facts, {}) if has else {}
+    f_down = guarded('download_objects filter', lambda it: filter_ok(it, 'download_objects'), False) if has else False
+    f_list = guarded('list_objects filter', lambda it: filter_ok(it, 'list_objects'), False) if has else False
 
-    # ---- upload_objects: `if skip_existing and await self._exists(name): <skip> else: <upload_stream>`
-    skip_ok = False
-    if up is not None:
-        for n in ast.walk(up):
-            if isinstance(n, ast.If) and isinstance(n.test, ast.BoolOp) and isinstance(n.test.op, ast.And) and len(n.test.values) == 2 \
-                    and unparse(n.test.values[0]) == 'skip_existing' and _calls(n.test.values[1], unparse, '._exists') \
-                    and not any(_calls(b, unparse, '.upload_stream') or 'upload_stream' in unparse(b) for b in n.body) \
-                    and any('upload_stream' in unparse(b) for b in n.orelse):
-                skip_ok = True
-    flag('objcmdUploadSkipChecksExists', skip_ok, 'upload_objects: the skip_existing guard is not `skip_existing and await self._exists(name)` around the upload')
-
-    # ---- chunk size under a rate limit: max(rate_limit // (self._concurrent * K), FLOOR) in both transfer commands; default DEFAULT_STREAM_CHUNK_SIZE
-    floors, defaults = [], []
-    for fn in (up, down):
-        if fn is None:
-            continue
-        for n in ast.walk(fn):
-            if isinstance(n, ast.Assign) and len(n.targets) == 1 and isinstance(n.targets[0], ast.Name) and n.targets[0].id.endswith('chunk_size'):
-                v = n.value
-                if isinstance(v, ast.Call) and unparse(v.func) == 'max' and len(v.args) == 2 and 'rate_limit //' in unparse(v.args[0]):
-                    try:
-                        floors.append(ast.literal_eval(v.args[1]))
-                    except Exception:  # noqa: BLE001
-                        floors.append(None)
-                elif 'rate_limit' not in unparse(v):
-                    defaults.append(unparse(v))
-    if len(floors) == 2 and floors[0] == floors[1] and isinstance(floors[0], int) and floors[0] >= 0:
-        emit(f'def objcmdChunkFloor : Nat := {floors[0]}')
+    flag('objcmdNameIsRelativeToCommonPath', up.get('name'), 'upload_objects: the object name is not path.relative_to(commonpath([path, cwd])).as_posix()')
+    flag('objcmdUploadSkipChecksExists', up.get('skip'),
+         'upload_objects: the upload is not guarded by exactly `not (skip_existing and <backend.exists(name)>)`')
+    cu, cd = up.get('chunk'), down.get('chunk')
+    if cu is not None and cd is not None and cu[0] == cd[0]:
+        emit(f'def objcmdChunkFloor : Nat := {cu[0]}')
     else:
-        notes['objcmd:objcmdChunkFloor'] = f'not recognised: {floors}'
+        notes['objcmd:objcmdChunkFloor'] = f'not recognised: upload {cu}, download {cd}'
         emit('opaque objcmdChunkFloor : Nat')
-    flag('objcmdDefaultChunkIsStreamChunk', len(defaults) == 2 and set(defaults) == {'DEFAULT_STREAM_CHUNK_SIZE'},
-         f'default chunk sizes of upload_objects / download_objects: {defaults}')
-
-    # ---- download_objects: write mode 'xb' iff skip_existing, FileExistsError swallowed, parents created first
-    mode_ok = catch_ok = False
-    if down is not None:
-        for n in ast.walk(down):
-            if isinstance(n, ast.Assign) and isinstance(n.value, ast.IfExp) and unparse(n.value.test) == 'skip_existing':
-                try:
-                    mode_ok = (ast.literal_eval(n.value.body), ast.literal_eval(n.value.orelse)) == ('xb', 'wb')
-                except Exception:  # noqa: BLE001
-                    mode_ok = False
-            if isinstance(n, ast.Try):
-                opens = any(_calls(b, unparse, '.open') for b in n.body)
-                swallowed = any(h.type is not None and unparse(h.type) == 'FileExistsError' and not any(isinstance(x, ast.Raise) for b in h.body for x in ast.walk(b))
-                                for h in n.handlers)
-                downloads_in_else = any('download_stream' in unparse(b) for b in n.orelse)
-                if opens and swallowed and downloads_in_else:
-                    catch_ok = True
-    flag('objcmdDownloadModeExclusiveIffSkip', mode_ok, "download_objects: write_mode is not 'xb' if skip_existing else 'wb'")
-    flag('objcmdDownloadSkipsOnFileExists', catch_ok, 'download_objects: FileExistsError of open() is not swallowed around the download')
-
-    # ---- the filter of download_objects / list_objects: names of list_files(object_prefix) with `object_re.search(name) is None` dropped
-    def filter_ok(fn):
-        if fn is None:
-            return False
-        for n in ast.walk(fn):
-            if isinstance(n, ast.AsyncFor) and 'list_files' in unparse(n.iter) and 'object_prefix' in unparse(n.iter):
-                for i in n.body:
-                    if isinstance(i, ast.If) and '.search(' in unparse(i.test) and 'is None' in unparse(i.test) \
-                            and any(isinstance(x, ast.Continue) for x in i.body):
-                        return True
-        return False
-    flag('objcmdFilterIsPrefixThenSearch', filter_ok(down) and filter_ok(lst), 'download_objects / list_objects: filter is not list_files(object_prefix) + regex.search')
-
-    # ---- delete_objects: backend delete, then (iff a cache directory is configured) the cached copy
-    del_ok = False
-    if dele is not None:
-        for n in ast.walk(dele):
-            if isinstance(n, (ast.AsyncFunctionDef, ast.FunctionDef)) and n is not dele:
-                txt = [unparse(b) for b in n.body]
-                i_del = next((i for i, t in enumerate(txt) if 'self._delete(' in t), None)
-                i_ev = next((i for i, b in enumerate(n.body) if isinstance(b, ast.If) and unparse(b.test) == 'self._cache_directory is not None'
-                             and '_delete_cached' in unparse(b)), None)
-                if i_del is not None and i_ev is not None and i_del < i_ev:
-                    del_ok = True
-    flag('objcmdDeleteEvictsCache', del_ok, 'delete_objects: no `_delete_cached(location)` under `self._cache_directory is not None` after the backend delete')
-    dc = fns['_delete_cached']
-    flag('objcmdEvictMissingOk', dc is not None and 'unlink(missing_ok=True)' in unparse(dc), '_delete_cached: not unlink(missing_ok=True)')
+    flag('objcmdDefaultChunkIsStreamChunk', cu is not None and cd is not None and cu[1] and cd[1],
+         f'default chunk sizes of upload_objects / download_objects are not DEFAULT_STREAM_CHUNK_SIZE: {cu} / {cd}')
+    flag('objcmdDownloadModeExclusiveIffSkip', down.get('mode'), "download_objects: the open mode is not 'xb' if skip_existing else 'wb'")
+    flag('objcmdDownloadSkipsOnFileExists', down.get('catch'), 'download_objects: FileExistsError of open() is not swallowed around the download')
+    flag('objcmdFilterIsPrefixThenSearch', f_down and f_list, 'download_objects / list_objects: filter is not list_files(object_prefix) + regex.search')
+    flag('objcmdDeleteEvictsCache', dele.get('evicts'),
+         'delete_objects: no unlink of the cached copy under `<cache directory> is not None` after the backend delete')
+    flag('objcmdEvictMissingOk', dele.get('missing_ok'), 'delete_objects: the unlink of the cached copy does not tolerate a missing file')
